@@ -60,18 +60,45 @@ Record interp : Type := {
   idiv0 : Z -> Z                                (* x div 0 on integers *)
 }.
 
-(* sorts that have values: positive bit-widths, component sorts inhabited *)
-Fixpoint sort_ok (t : ty) : Prop :=
+(* sorts that have values: first-order sorts with positive bit-widths (a function type is not
+   the sort of a value: function symbols are interpreted through [ifun]) *)
+Fixpoint fo_ok (t : ty) : Prop :=
   match t with
   | TBV w => (0 < w)%Z
-  | TArr i e => sort_ok i /\ sort_ok e
-  | TFun _ r => sort_ok r
+  | TArr i e => fo_ok i /\ fo_ok e
+  | TFun _ _ => False
   | _ => True
   end.
+Definition sort_ok (t : ty) : Prop :=
+  match t with TFun _ r => fo_ok r | _ => fo_ok t end.
 
+(* every free symbol of an inhabited sort denotes a value of that sort; every function symbol
+   returns values of its result sort (satisfiable: wf_interp_inhabited below) *)
 Definition wf_interp (I : interp) : Prop :=
-  (forall n t, sort_ok t -> match t with TFun _ _ => True | _ => has_ty (isym I n t) t end) /\
-  (forall n ps r args, sort_ok r -> has_ty (ifun I n (TFun ps r) args) r).
+  (forall n t, fo_ok t -> has_ty (isym I n t) t) /\
+  (forall n ps r args, fo_ok r -> has_ty (ifun I n (TFun ps r) args) r).
+
+Fixpoint default_val (t : ty) : value :=
+  match t with
+  | TBool => VBool false | TInt => VInt 0 | TReal => VReal 0 | TStr => VStr []
+  | TBV w => VBV w 0
+  | TArr _ e => VArr (fun _ => default_val e)
+  | TUser n _ => VU n 0
+  | TFun _ _ => VBool false
+  end.
+Lemma default_val_has_ty : forall t, fo_ok t -> has_ty (default_val t) t.
+Proof.
+  induction t; cbn; intros H; auto; try contradiction.
+  - split; [reflexivity|]. split; [apply Z.le_refl | apply Z.pow_pos_nonneg; [reflexivity | now apply Z.lt_le_incl]].
+  - destruct H as [_ He]. intros k. now apply IHt2.
+Qed.
+Lemma wf_interp_inhabited : exists I, wf_interp I.
+Proof.
+  exists {| isym := fun _ t => default_val t;
+            ifun := fun _ t _ => match t with TFun _ r => default_val r | _ => VBool false end;
+            rdiv0 := fun r => r; idiv0 := fun z => z |}.
+  split; cbn; intros; now apply default_val_has_ty.
+Qed.
 
 Definition bind1 (I : interp) (v : var) (x : value) : interp :=
   {| isym := fun n t => if String.eqb n (fst v) && ty_eqb t (snd v) then x else isym I n t;
